@@ -28,7 +28,7 @@ ASSUMPTIONS = [
     'crash points are Python-level I/O calls; kernel-level reordering / torn sectors / power loss after rename are not modelled',
     'a datapackage.json that does not parse as JSON is treated as absent (the statement speaks of a parseable descriptor)',
 ]
-BUDGET = {'quick': dict(examples=32, shards=16, seconds=80, chunk=6),
+BUDGET = {'quick': dict(examples=48, shards=16, seconds=80, chunk=6),
           'thorough': dict(examples=1600, shards=16, seconds=1200, chunk=10)}
 
 
@@ -37,6 +37,13 @@ def cases_(draw):
     fmt = draw(st.sampled_from(['csv', 'json']))
     pkg = draw(gen_dump.dump_package(sort_fields=True, max_fields=3, max_rows=draw(st.sampled_from([0, 1, 3, 25])),
                                      types=['string', 'integer', 'date']))
+    if gen.rare(draw, 600):
+        # multi-byte text: sizes in characters and in bytes differ
+        for r in pkg:
+            for row in r['rows']:
+                for f in r['fields']:
+                    if f['type'] == 'string' and row[f['name']] is not None:
+                        row[f['name']] = 'é日' + row[f['name']]
     return {'pkg': pkg, 'format': fmt, 'pretty': draw(st.sampled_from([None, False])),
             'filehash': draw(st.integers(0, 4)) == 0}
 
